@@ -380,7 +380,7 @@ theorem params_declared : ∀ s ∈ schemas, s.name ≠ "OsuSvList" → sameFiel
   decide
 
 /-- **A list built from items has exactly the declared fields** — every list class except `OsuSvList`
-(finding D1601), any non-empty list of items built by the constructor from its named parameters. -/
+(finding D34), any non-empty list of items built by the constructor from its named parameters. -/
 theorem fromItems_declared (s : Schema) (hs : s ∈ schemas) (hname : s.name ≠ "OsuSvList")
     (kws items : List Rec) (hne : kws ≠ [])
     (hk : ∀ kw ∈ kws, ∀ kv ∈ kw, s.paramNames.contains kv.1 = true)
@@ -423,7 +423,7 @@ theorem fromItems_declared (s : Schema) (hs : s ∈ schemas) (hname : s.name ≠
     | cons i is => simp [fromItemsF, relabel, length_relabelFrom, ← hl]
   exact ⟨by rw [hasDeclaredFields, hcols]; exact params_declared s hs hname, hrows⟩
 
-/-- D1601: an `OsuSvList` built from one `OsuSv(offset=1)` has a `metronome` column that is not declared -/
+/-- D34: an `OsuSvList` built from one `OsuSv(offset=1)` has a `metronome` column that is not declared -/
 theorem osuSv_items_counterexample :
     ∃ s ∈ schemas, s.name = "OsuSvList" ∧ s.declaredNames.contains "metronome" = false ∧
       (match mkItem s.params [("offset", .num 1)] with
@@ -445,11 +445,10 @@ theorem fromDict_undeclared (s : Schema) (d : List (String × List Cell)) (k : S
     rw [hn] at this
     cases this
 
-/-- **A list built from a dict has exactly the declared fields**: every declared key set, provided no field
-with a list-valued default is left out of a dict with rows (finding D1602). -/
+/-- **A list built from a dict has exactly the declared fields**: every non-empty dict whose keys are declared,
+every schema (list-valued defaults included, post-D24). -/
 theorem fromDict_declared (s : Schema) (hnd : s.declaredNames.Nodup) (d : List (String × List Cell))
-    (hne : d ≠ []) (hkeys : (d.map (·.1)).Nodup) (hdecl : ∀ k ∈ d.map (·.1), k ∈ s.declaredNames)
-    (hlist : ∀ p ∈ s.declared, isListDefault p.2.2 = true → p.1 ∈ d.map (·.1)) :
+    (hne : d ≠ []) (hkeys : (d.map (·.1)).Nodup) (hdecl : ∀ k ∈ d.map (·.1), k ∈ s.declaredNames) :
     ∃ f, fromDictF s d = .ok f ∧ hasDeclaredFields s f.cols = true := by
   cases d with
   | nil => exact absurd rfl hne
@@ -458,18 +457,6 @@ theorem fromDict_declared (s : Schema) (hnd : s.declaredNames.Nodup) (d : List (
     have hall : ((kv :: d').map (·.1)).all (fun k => s.declaredNames.contains k) = true := by
       rw [List.all_eq_true]; intro k hk; simpa using hdecl k hk
     rw [if_pos hall]
-    have hany : (s.declared.filter (fun p => !((kv :: d').map (·.1)).contains p.1)).any
-        (fun p => isListDefault p.2.2) = false := by
-      rw [Bool.eq_false_iff]; intro h
-      rw [List.any_eq_true] at h
-      obtain ⟨p, hp, hpl⟩ := h
-      rw [List.mem_filter] at hp
-      have h1 := hlist p hp.1 hpl
-      have h2 : ((kv :: d').map (·.1)).contains p.1 = true := by simpa using h1
-      have h3 := hp.2
-      rw [h2] at h3
-      exact absurd h3 (by decide)
-    rw [if_neg (fun h => by rw [hany] at h; exact absurd h.2 (by decide))]
     refine ⟨_, rfl, ?_⟩
     simp only [hasDeclaredFields, sameFields, Bool.and_eq_true, List.all_eq_true, decide_eq_true_eq]
     refine ⟨⟨?_, ?_⟩, ?_⟩
@@ -503,12 +490,16 @@ theorem fromDict_declared (s : Schema) (hnd : s.declaredNames.Nodup) (d : List (
         rw [h2] at h3
         exact absurd h3 (by decide)
 
-/-- D1602: `QuaHitList.from_dict({"offset": [1], "column": [1]})` raises instead of filling `keysounds` -/
+/-- D24 (repaired): before the fix `QuaHitList.from_dict({"offset": [1], "column": [1]})` raised instead of
+filling `keysounds`; now it has the declared fields and one row -/
 theorem fromDict_list_default_counterexample :
     ∃ s ∈ schemas, s.name = "QuaHitList" ∧
-      (match fromDictF s [("offset", [.num 1]), ("column", [.num 1])] with
+      (match fromDictOldF s [("offset", [.num 1]), ("column", [.num 1])] with
         | .error .value => true
-        | _ => false) = true := by
+        | _ => false) = true ∧
+      (match fromDictF s [("offset", [.num 1]), ("column", [.num 1])] with
+        | .ok f => hasDeclaredFields s f.cols && f.rows.length == 1
+        | .error _ => false) = true := by
   decide
 
 /-! ## 7. An item built from a row carries the row's values -/
